@@ -362,6 +362,137 @@ theorem runFuel_tie : ∀ (fuel : Nat) (data : List Nat) (err : Bool),
                 simp [toOpt, runOf, runUp, ho, i1, i2, i3, hr']
 
 
+/-! ## against the independent specification's splitter (LoRaWAN 1.0.4 Table 4, `Spec/MacCmdSpec.lean`) -/
+
+/-- `next` on a stream whose first command is whole (by the regenerated table) -/
+theorem next_ok_lk (cid n : Nat) (rest : List Nat) (v t : String) (hlk : TD.lookup cid = some ⟨cid, some n, v, t⟩)
+    (hl : ¬ rest.length < n) :
+    ∃ c, Gen.MacCmdFn.MacCommands.next ⟨ints (cid :: rest), false⟩ = some (some (.Ok c), ⟨ints (rest.drop n), false⟩) ∧
+      infoOf c = (cid, v, t, ints (rest.take n)) := by
+  have hp := parse_one_tie (cid :: rest)
+  rw [model_fixed cid n v t rest hlk, if_neg hl] at hp
+  cases hg : Gen.MacCmdFn.DownlinkMacCommand.parse_one (ints (cid :: rest)) with
+  | none => rw [hg] at hp; simp [toOpt] at hp
+  | some r =>
+    rw [hg] at hp
+    cases r with
+    | Err e => simp [toOpt, oneOf, oneUp] at hp
+    | Ok c m =>
+      simp only [Option.map_some, toOpt, oneOf, oneUp, cmdUp, Option.some.injEq, Except.ok.injEq, Prod.mk.injEq] at hp
+      obtain ⟨hi, hm⟩ := hp
+      refine ⟨c, ?_, by simpa using hi⟩
+      have he : (ints (cid :: rest)).isEmpty = false := by simp [ints]
+      unfold Gen.MacCmdFn.MacCommands.next
+      simp only [he, Bool.or_self, Bool.false_eq_true, if_false, hg, Option.bind_eq_bind, Option.bind_some, hm]
+      have := sliceFrom_ints (cid :: rest) (1 + n)
+      have hle : 1 + n ≤ (cid :: rest).length := by simp only [List.length_cons]; omega
+      rw [if_pos hle] at this
+      rw [this]
+      simp [Nat.add_comm 1 n, List.drop_succ_cons]
+
+/-- `next` on a stream whose first octet does not start a whole known command: the model's error, the iterator fused -/
+theorem next_err_lk (cid : Nat) (rest : List Nat) (e : MacCmd.ParseError)
+    (hm : parseOne TD varLen (cid :: rest) = .ok (.error e)) :
+    ∃ e', errOf e' = e ∧
+      Gen.MacCmdFn.MacCommands.next ⟨ints (cid :: rest), false⟩ = some (some (.Err e'), ⟨ints (cid :: rest), true⟩) := by
+  have hp := parse_one_tie (cid :: rest)
+  rw [hm] at hp
+  cases hg : Gen.MacCmdFn.DownlinkMacCommand.parse_one (ints (cid :: rest)) with
+  | none => rw [hg] at hp; simp [toOpt] at hp
+  | some r =>
+    rw [hg] at hp
+    cases r with
+    | Ok c m => simp [toOpt, oneOf, oneUp] at hp
+    | Err e' =>
+      refine ⟨e', by simpa [toOpt, oneOf, oneUp] using hp, ?_⟩
+      have he : (ints (cid :: rest)).isEmpty = false := by simp [ints]
+      unfold Gen.MacCmdFn.MacCommands.next
+      simp [he, hg]
+
+/-- an item of the regenerated iterator in the specification's vocabulary -/
+def specItem : Gen.MacCmdFn.NextItem → Spec.MacCmd.Item
+  | .Ok c => .cmd ⟨(infoOf c).1, (infoOf c).2.1, .fixed (infoOf c).2.2.2.length⟩ (nats (infoOf c).2.2.2)
+  | .Err (.UnknownCid c) => .unknown c.toNat
+  | .Err (.Truncated c) => .truncated c.toNat
+
+/-- the regenerated table against LoRaWAN 1.0.4 Table 4, CID by CID -/
+theorem spec_lookup (cid : Nat) :
+    match TD.lookup cid with
+    | none => Spec.MacCmd.macDownlink.find? (fun c => c.cid == cid) = none
+    | some e => ∃ n, e = ⟨cid, some n, e.variant, e.payload⟩ ∧
+        Spec.MacCmd.macDownlink.find? (fun c => c.cid == cid) = some ⟨cid, e.variant, .fixed n⟩ := by
+  by_cases h : cid ∈ [2, 3, 4, 5, 6, 7, 8, 9, 10, 13]
+  · simp only [List.mem_cons, List.not_mem_nil, or_false] at h
+    rcases h with rfl | rfl | rfl | rfl | rfl | rfl | rfl | rfl | rfl | rfl <;> exact ⟨_, rfl, rfl⟩
+  · rw [lookup_none cid h]
+    simp only [List.mem_cons, List.not_mem_nil, or_false, not_or] at h
+    obtain ⟨h2, h3, h4, h5, h6, h7, h8, h9, h10, h13⟩ := h
+    have e : ∀ k : Nat, cid ≠ k → (k == cid) = false := fun k hk => by simp; omega
+    simp [Spec.MacCmd.macDownlink, List.find?, e _ h2, e _ h3, e _ h4, e _ h5, e _ h6, e _ h7, e _ h8, e _ h9, e _ h10, e _ h13]
+
+theorem next_errored (d : List Int) : Gen.MacCmdFn.MacCommands.next ⟨d, true⟩ = some (none, ⟨d, true⟩) := by
+  simp [Gen.MacCmdFn.MacCommands.next]
+
+theorem run_empty (f : Nat) : genRunFuel (f + 1) ⟨[], false⟩ = some ([], ⟨[], false⟩, false) := by
+  simp [genRunFuel, Gen.MacCmdFn.MacCommands.next]
+
+theorem run_step (f : Nat) (s s' : Gen.MacCmdFn.MacCommands) (it : Gen.MacCmdFn.NextItem)
+    (r : List Gen.MacCmdFn.NextItem × Gen.MacCmdFn.MacCommands × Bool)
+    (hn : Gen.MacCmdFn.MacCommands.next s = some (some it, s')) (hr : genRunFuel f s' = some r) :
+    genRunFuel (f + 1) s = some (it :: r.1, r.2.1, r.2.2) := by
+  simp only [genRunFuel, hn, hr]
+
+theorem drain_spec : ∀ (k : Nat) (data : List Nat), data.length ≤ k →
+    ∀ fuel fuel', data.length + 2 ≤ fuel → data.length + 1 ≤ fuel' →
+    ∃ r, genRunFuel fuel ⟨ints data, false⟩ = some r ∧ r.2.2 = false ∧
+      r.1.map specItem = (Spec.MacCmd.split Spec.MacCmd.macDownlink fuel' data).1 ∧
+      r.2.1.data = ints (Spec.MacCmd.split Spec.MacCmd.macDownlink fuel' data).2 := by
+  intro k
+  induction k with
+  | zero =>
+    intro data hk fuel fuel' hf hf'
+    have : data = [] := List.length_eq_zero_iff.mp (by omega)
+    subst this
+    obtain ⟨f, rfl⟩ : ∃ f, fuel = f + 1 := ⟨fuel - 1, by simp at hf; omega⟩
+    obtain ⟨f', rfl⟩ : ∃ f', fuel' = f' + 1 := ⟨fuel' - 1, by simp at hf'; omega⟩
+    exact ⟨_, run_empty f, rfl, by simp [Spec.MacCmd.split], by simp [Spec.MacCmd.split]⟩
+  | succ k ih =>
+    intro data hk fuel fuel' hf hf'
+    obtain ⟨f, rfl⟩ : ∃ f, fuel = f + 1 := ⟨fuel - 1, by omega⟩
+    obtain ⟨f', rfl⟩ : ∃ f', fuel' = f' + 1 := ⟨fuel' - 1, by omega⟩
+    cases data with
+    | nil => exact ⟨_, run_empty f, rfl, by simp [Spec.MacCmd.split], by simp [Spec.MacCmd.split]⟩
+    | cons cid rest =>
+      simp only [List.length_cons] at hk hf hf'
+      obtain ⟨f2, rfl⟩ : ∃ f2, f = f2 + 1 := ⟨f - 1, by omega⟩
+      have hs := spec_lookup cid
+      cases hlk : TD.lookup cid with
+      | none =>
+        rw [hlk] at hs
+        obtain ⟨e', he', hn⟩ := next_err_lk cid rest _ (model_unknown cid rest hlk)
+        refine ⟨([.Err e'], ⟨ints (cid :: rest), true⟩, false), ?_, rfl, ?_, ?_⟩
+        · simp [genRunFuel, hn, next_errored]
+        · cases e' <;> simp [errOf] at he' <;> simp [Spec.MacCmd.split, hs, specItem, he']
+        · simp [Spec.MacCmd.split, hs]
+      | some e =>
+        rw [hlk] at hs
+        obtain ⟨n, hen, hfind⟩ := hs
+        rw [hen] at hlk
+        by_cases hl : rest.length < n
+        · obtain ⟨e', he', hn⟩ := next_err_lk cid rest _ (by rw [model_fixed cid n _ _ rest hlk, if_pos hl])
+          have hpl : ¬ n ≤ rest.length := by omega
+          refine ⟨([.Err e'], ⟨ints (cid :: rest), true⟩, false), ?_, rfl, ?_, ?_⟩
+          · simp [genRunFuel, hn, next_errored]
+          · cases e' <;> simp [errOf] at he' <;> simp [Spec.MacCmd.split, hfind, Spec.MacCmd.payloadLen, hpl, specItem, he']
+          · simp [Spec.MacCmd.split, hfind, Spec.MacCmd.payloadLen, hpl]
+        · obtain ⟨c, hn, hi⟩ := next_ok_lk cid n rest _ _ hlk hl
+          have hpl : n ≤ rest.length := by omega
+          obtain ⟨r', hr', hh', hi', hd'⟩ := ih (rest.drop n) (by simp only [List.length_drop]; omega) (f2 + 1) f'
+            (by simp only [List.length_drop]; omega) (by simp only [List.length_drop]; omega)
+          refine ⟨(.Ok c :: r'.1, r'.2.1, r'.2.2), run_step _ _ _ _ _ hn hr', hh', ?_, ?_⟩
+          · simp [Spec.MacCmd.split, hfind, Spec.MacCmd.payloadLen, hpl, specItem, hi, hi', List.length_take, Nat.min_eq_left hpl]
+          · simp [Spec.MacCmd.split, hfind, Spec.MacCmd.payloadLen, hpl, hd']
+
 theorem down_mem : ("DownlinkMacCommand", Gen.CmdTables.downlinkMacCommand) ∈ Gen.CmdTables.allSets := by decide
 
 theorem hvl : VlTotal TD varLen := C03.vl_total _ down_mem
@@ -466,6 +597,19 @@ example : (Gen.MacCmdFn.DownlinkMacCommand.parse_one [0x0A, 1, 2]) = some (.Err 
 example : (Gen.MacCmdFn.DownlinkMacCommand.parse_one [0x08, 1, 2]) = some (.Ok (.RXTimingSetupReq ⟨[1]⟩) 2) := by decide
 example : (toOpt (run TD varLen [3, 0x51, 7, 0, 0, 6, 0x0A, 1])).map (fun r => (r.items.length, r.hang)) = some (3, false) := by decide
 
+/-- builder U — the REGENERATED iterator against the independent specification: for every octet stream, draining
+`parse_downlink_mac_commands` yields exactly what the specification's splitter (`Spec.MacCmd.splitAll` over LoRaWAN 1.0.4
+Table 4) yields — the same whole commands (CID, name, payload octets) in the same order, then at most one error item
+(`unknown` / `truncated` with the offending CID) — and leaves exactly the octets the splitter leaves unread. -/
+theorem tieA_iterator_spec (data : List Nat) :
+    ∃ r, genRun (ints data) = some r ∧ r.2.2 = false ∧
+      r.1.map specItem = (Spec.MacCmd.splitAll Spec.MacCmd.macDownlink data).1 ∧
+      r.2.1.data = ints (Spec.MacCmd.splitAll Spec.MacCmd.macDownlink data).2 := by
+  unfold genRun Spec.MacCmd.splitAll
+  rw [ints_length]
+  exact drain_spec data.length data (Nat.le_refl _) _ _ (Nat.le_refl _) (Nat.le_refl _)
+
+#print axioms tieA_iterator_spec
 #print axioms tieA_parse_one
 #print axioms tieA_next
 #print axioms tieA_iterator
